@@ -14,6 +14,8 @@
 
 # from copy import deepcopy
 
+from typing import Dict
+
 from sympy import Symbol
 from sympy.logic import And, Not, Or, Xor
 from sympy.logic.boolalg import Boolean, BooleanFalse, BooleanTrue
@@ -41,6 +43,7 @@ class InternalCompiler(Compiler):
     ) -> QCircuit:
         qc = QCircuitEnhanced(name=name)
         self.expqmap = ExpQMap()
+        self.const_qubits: Dict[bool, int] = {}
         # self.remaining_exps = deepcopy(exprs)
 
         # 1. We first add a qubit for every input bit
@@ -80,15 +83,8 @@ class InternalCompiler(Compiler):
         """Compile a boolean expression, return the result qubit"""
 
         # 1. If we have a constant expression, create if needed and return a constant qubit
-        if isinstance(expr, BooleanFalse):
-            if "FALSE" not in qc:
-                qc.add_qubit("FALSE")
-            return qc["FALSE"]
-        elif isinstance(expr, BooleanTrue):
-            if "TRUE" not in qc:
-                qc.add_qubit("TRUE")
-                qc.x(qc["TRUE"])
-            return qc["TRUE"]
+        if isinstance(expr, (BooleanFalse, BooleanTrue)):
+            return self.compile_const(qc, isinstance(expr, BooleanTrue))
 
         # 2. If expr is a symbol
         elif isinstance(expr, Symbol):
@@ -276,6 +272,18 @@ class InternalCompiler(Compiler):
         if dest is None:
             self.expqmap[expr] = d
         return d
+
+    def compile_const(self, qc, value: bool) -> int:
+        """Return the qubit holding a constant, creating it if needed; the qubit is
+        remembered by index, since a user symbol may be called TRUE or FALSE too"""
+        if value not in self.const_qubits:
+            name = "TRUE" if value else "FALSE"
+            while name in qc:
+                name += "_"
+            self.const_qubits[value] = qc.add_qubit(name)
+            if value:
+                qc.x(self.const_qubits[value])
+        return self.const_qubits[value]
 
     def compile_symbol(self, qc, expr, dest=None, sym=None) -> int:
         # 1. If a qubit is mapped to another qubit (iff sym.name is a _ret)
